@@ -101,7 +101,8 @@ pub fn run(sh: &mut Shell, cl: &CommandLine, cmd: &Command,
                     cr
                 }
                 Some(SubCommand::Add {timestamp: ts, input}) => {
-                    let ts = ts.unwrap_or(0 as f64);
+                    // without `-t` the item is added now, like a typed line
+                    let ts = ts.unwrap_or_else(|| ctime::DateTime::now().unix_timestamp());
                     add_history(sh, ts, &input);
                     cr
                 }
